@@ -285,3 +285,5 @@ func getenv(k, def string) string {
 	}
 	return def
 }
+
+func removeAll(dir string) { _ = os.RemoveAll(dir) }
